@@ -98,3 +98,29 @@ def boxes(leaf_boxes, cap=4096):
             rngs.append(sorted({lo, hi, (lo + hi) // 2, min(hi, max(lo, 0)), min(hi, max(lo, 1))}))
     for combo in itertools.product(*rngs):
         yield dict(zip(ids, combo))
+
+
+def warm(m):
+    """the same call-history prefix the harness issues (sx/plh.py::warm)"""
+    for f in ("flatten", "errors", "to_text", "to_short", "_dependencies"):
+        try:
+            getattr(m, f)()
+        except Exception:   # noqa
+            pass
+    try:
+        m.variables
+    except Exception:   # noqa
+        pass
+
+
+def nd_warm(P):
+    for f in ("column_bounds", "row_bounds", "to_linalg"):
+        try:
+            getattr(P, f)()
+        except Exception:    # noqa
+            pass
+    for a in ("A", "b", "A_max", "A_min"):
+        try:
+            getattr(P, a)
+        except Exception:    # noqa
+            pass
